@@ -357,8 +357,15 @@ def particle_number_measurement(
     ):
         uniform_transmission_probability = singular_values[0] ** 2
 
+        # NOTE: The rejection below draws from the generator shared by the whole
+        # simulation in the order of the shots. Generating the shots concurrently
+        # would make the samples depend on the scheduling of the tasks, therefore
+        # the shots are always generated sequentially in this case.
+        sequential_config = config.copy()
+        sequential_config.use_dask = False
+
         samples = generate_samples(
-            **common_kwargs,
+            **{**common_kwargs, "config": sequential_config},
             calculate_permanent_laplace=state._connector.permanent_laplace,
             reject_condition=(lambda: rng.uniform() > uniform_transmission_probability),
             uniform_particle_overlap=state._particle_overlap,
